@@ -6,21 +6,21 @@ CONSTANTS
   PlaceholderTypedAsCookie = FALSE
   CapReply = TRUE
   Day = 2
-  Ticks <- GTicks
-  Horizon = 30
-  MaxEx = 16
-  ProbeNs <- GProbes
-  ProbeUids <- GUids
-  MaxOld = 3
-  Transports <- TrBoth
+  Ticks <- GTicksX
+  Horizon = 6
+  MaxEx = 2
+  ProbeNs <- NoProbes
+  ProbeUids <- GUidsX
+  MaxOld = 2
+  Transports <- TrSCION
   ScmpTypes <- ScmpAll
-  Exhaustive = FALSE
-  Biases <- BiasAll
-  TickPct = 12
-  ProbePct = 8
-  StalePct = 30
+  Exhaustive = TRUE
+  Biases <- BiasOne
+  TickPct = 0
+  ProbePct = 0
+  StalePct = 0
   ExInj <- InjX
-  ScmpPct = 35
+  ScmpPct = 0
   ExScmp <- ScmpX
 INVARIANTS Emit
 PROPERTIES StepOfSpec
